@@ -117,9 +117,9 @@ func relPreludes(path model.Path) [][]model.Op {
 		nil,
 		{newP, newP},
 		{newP, newP, child(0), child(0), child(1)},
-		{newP, newP, child(0), {K: model.OpRemoveEntity, E: 2}},                       // T1's table emptied
+		{newP, newP, child(0), {K: model.OpRemoveEntity, E: 2}},                      // T1's table emptied
 		{newP, newP, child(0), {K: model.OpRemoveEntity, E: 2}, {K: model.OpShrink}}, // ... and freed
-		{newP, child(0), child(1)}, // chain: #2 -> #1 -> #0
+		{newP, child(0), child(1)},                                                   // chain: #2 -> #1 -> #0
 	}
 }
 
